@@ -81,6 +81,7 @@ type obs struct {
 	Sticky     bool     `json:"sticky"`
 	StickyWhat string   `json:"sticky_what,omitempty"`
 	Fatal      string   `json:"fatal"`                              // round trip error / panic / nil body / hang
+	Trailer    []string `json:"trailer_x_sum,omitempty"`            // resp.Trailer["X-Sum"] after the body was read to its end
 	Attempts   int      `json:"attempts,omitempty"`                 // requests the origin received for this exchange
 	AEs        []string `json:"attempt_accept_encodings,omitempty"` // Accept-Encoding of each of them
 }
@@ -294,6 +295,7 @@ func (w *world) exchangeOn(x exchange, xid string) (o obs) {
 	if rerr != io.EOF {
 		o.Err = rerr.Error()
 	}
+	o.Trailer = resp.Trailer.Values("X-Sum")
 	// sticky: after the terminal status every further read returns no data and a status of the same
 	// kind (io.EOF stays io.EOF, an error stays an error - not a clean io.EOF after a decode error)
 	o.Sticky = true
@@ -348,6 +350,11 @@ func verdict(x exchange, o obs) (kind, what string) {
 	}
 	if s.DeclCL > len(s.Served) && !head {
 		return shortVerdict(x, o, transportAsked)
+	}
+	if s.Trailer != "" && !head && o.Err == "" && x.Via == "" && !sameStrs(o.Trailer, []string{s.Trailer}) {
+		// trailer fields are header fields of the response: decoded or not, a body read to its clean end
+		// has them
+		return "trailer", fmt.Sprintf("body read to a clean EOF, trailer X-Sum %q, sent %q", o.Trailer, s.Trailer)
 	}
 	// several Content-Encoding lines are one list (RFC 9110 5.3): the field value is the lines joined
 	ce := strings.Join(s.CE, ", ")
